@@ -10,4 +10,4 @@ rc=0
 for p in "$@"; do
   (cd /verif && ./check "$p" | grep -E "VIOLATION|instance|^C[0-9]+ \[" | cut -c1-400)
 done
-git checkout -- . ; git status --short | head -3
+git checkout -- . ; git clean -fdq -- src tests; git status --short | head -3
